@@ -34,6 +34,9 @@ c_CmdsF ==
   {C("user", NA, "u2", 0), C("quit", NA, "", 0), C("pasv", NA, "", 0), C("abor", NA, "", 0), C("pwd", NA, "", 0),
    C("mkd", P(FALSE, <<"x">>), "", 0), C("rnfr", P(FALSE, <<"g">>), "", 0), C("rnto", P(FALSE, <<"x">>), "", 0),
    C("retr", P(FALSE, <<"g">>), "", 0), C("stor", P(FALSE, <<"x">>), "", 0), C("list", P(FALSE, <<>>), "", 0)}
+c_CmdsT ==
+  {C("user", NA, "u2", 0), C("quit", NA, "", 0), C("pasv", NA, "", 0), C("pwd", NA, "", 0),
+   C("retr", P(FALSE, <<"g">>), "", 0), C("stor", P(FALSE, <<"x">>), "", 0)}
 c_Tree == [d |-> {<<"A">>, <<"A", "d">>}, f |-> (<<"A", "f">> :> <<1, 2, 3>> @@ <<"A", "d", "g">> :> <<4>>)]
 c_Datas == {<<7>>, <<8, 9>>}
 c_DatasQ == {<<7, 8, 9>>}
